@@ -210,6 +210,34 @@ fn main() {
             let reqs: Vec<Value> = serde_json::from_str(&read_stdin()).unwrap();
             json!(reqs.iter().map(css_one).collect::<Vec<_>>())
         }
+        "sub-expr-counts" => {
+            // every expression form x every combination of three literal-field kinds: [v,k0,k1,k2,yielded,yielded_mut,expected]
+            let mut out = vec![];
+            for v in 0u8..44 {
+                for k in 0u8..27 {
+                    let (k0, k1, k2) = (k % 3, (k / 3) % 3, k / 9);
+                    let r = catch(move || {
+                        let (n, m, e) = tc::verif::sub_expr_counts(v, k0, k1, k2);
+                        json!([v, k0, k1, k2, n, m, e])
+                    });
+                    out.push(r);
+                }
+            }
+            json!(out)
+        }
+        "primitive-steps" => {
+            // stdin: JSON array of [text, cursor, op, arg]
+            let reqs: Vec<(String, usize, u8, String)> = serde_json::from_str(&read_stdin()).unwrap();
+            json!(reqs
+                .into_iter()
+                .map(|(s, cur, op, arg)| {
+                    catch(move || {
+                        let r = tc::verif::primitive_step(&s, cur, op, &arg);
+                        json!([r.0, r.1, r.2, r.3, r.4, r.5, r.6])
+                    })
+                })
+                .collect::<Vec<_>>())
+        }
         "css-tokens" => {
             // stdin: JSON array of css strings; output: token forest of each (comments skipped like the transformer does)
             let reqs: Vec<String> = serde_json::from_str(&read_stdin()).unwrap();
